@@ -34,7 +34,9 @@ for line in sys.stdin:
             out.write("1\n")
         else:
             path = "/".join(str(p) for p in err.absolute_path)
-            out.write("0 at /%s: %s\n" % (path, err.message.replace("\n", " ")[:200]))
+            # exactly one answer line per document: member names may hold line breaks
+            answer = "0 at /%s: %s" % (path, err.message[:200])
+            out.write(" ".join(answer.splitlines()).encode("utf-8", "backslashreplace").decode("utf-8") + "\n")
     except Exception as e:  # not JSON
-        out.write("0 not-json: %s\n" % str(e)[:100])
+        out.write("0 not-json: %s\n" % " ".join(str(e)[:100].splitlines()).encode("utf-8", "backslashreplace").decode("utf-8"))
     out.flush()
